@@ -1,5 +1,6 @@
 import SafeNet.Driver.Util
 import SafeNet.Model.Upgrade
+import SafeNet.Model.UnitFile
 /-!
 Line protocol of `drv_upgrade` (inputs only):
   `cfg  k=v k=v …`     → install and upgrade argument lists and settings of the model
@@ -13,7 +14,7 @@ Keys are dotted source expressions of `add_node` (`options.home_network`, `metri
 Values: `T` `F` booleans, `-` none, `s:<word>` some, `l:<w>,<w>` list (`l:` empty), `e:<Variant>` EVM network.
 -/
 namespace SafeNet.Driver.Upgrade
-open SafeNet.ArgTable SafeNet.Upgrade
+open SafeNet.ArgTable SafeNet.Upgrade SafeNet.UnitFile
 
 /-- words are written with ` ` as `%20` and `%` as `%25`; a `,` inside a list element as `%2C` -/
 def unesc (s : String) : String := ((s.replace "%20" " ").replace "%2C" ",").replace "%25" "%"
@@ -136,11 +137,71 @@ def installedServices (raw : List (String × String)) : List Nat :=
   | some (_, k) => all.filter (· < k)
   | none => all
 
+/-- the option record `cmd::node::add` hands to `add_node`: a `--bootstrap-cache-dir` given on antctl's command
+line (`@cli_cache`) against the service user's default (the record's own value), by the rule the source has -/
+def cliRecord (tbl : List (String × String)) (raw : List (String × String)) (i : Nat) : Valuation :=
+  let σ := valuationOf tbl raw i
+  match optOf tbl raw "@cli_cache" with
+  | some d =>
+    withCli σ Gen.Upgrade.addKeepsUserBootstrapCacheDir (some d)
+      (match σ cachePath with | .opt o => o | _ => none)
+  | none => σ
+
+/-- registry-wide environment when the daemon restarts the service (no later add in these histories) -/
+def regEnvOf (tbl : List (String × String)) (raw : List (String × String)) (i : Nat) : Option AStr :=
+  registryEnvAfterInstall (cliRecord tbl raw i) (optOf tbl raw "@prev") (outcomeOf raw)
+
 /-- (option record, registry entry at upgrade time) of service `i` -/
 def setup (raw : List (String × String)) (i : Nat) : Valuation × Valuation :=
   let tbl := caseTable raw
-  let σ := withEnv (valuationOf tbl raw i) (optOf tbl raw "@provided") (optOf tbl raw "@prev") (outcomeOf raw)
+  let σ₀ := withEnvLater (cliRecord tbl raw i) (optOf tbl raw "@provided") (optOf tbl raw "@prev") (outcomeOf raw)
+    (optOf tbl raw "@later")
+  -- circumstances of a daemon restart: `~.listenport` = the port of the recorded listen address, `~.regenv`
+  let σ : Valuation := fun p =>
+    if p = ["~", "listenport"] then .opt (optOf tbl raw "@listen")
+    else if p = ["~", "regenv"] then .opt (regEnvOf tbl raw i)
+    else σ₀ p
   (σ, afterStart (recordOf σ) (optOf tbl raw "@listen"))
+
+def showLevel : Val → String
+  | .bool true => "user"
+  | .bool false => "system"
+  | _ => "?"
+
+/-- the strings of the harness carry `$R` for its scratch root (plain characters): not a systemd variable -/
+def fixRoot (s : String) : String := s.replace "$R" "/R"
+
+def envPairs (s : String) : List (String × String) :=
+  (s.splitOn ",").filter (· ≠ "") |>.map fun p =>
+    match p.splitOn "=" with
+    | k :: rest@(_ :: _) => (k, "=".intercalate rest)
+    | _ => (p, "")
+
+/-- `X: <ExecStart line> E: <Environment lines>` as the shipped systemd backend renders the definition -/
+def showUnit (settings : List (String × Val)) (items : List Item) : String :=
+  let program := match settings.lookup "program" with | some v => asWord Gen.Upgrade.evmDisplay v | none => ""
+  let envs := match settings.lookup "environment" with
+    | some (.opt (some e)) => (envPairs e.show).map fun kv => esc (environmentLine kv.1 kv.2)
+    | _ => []
+  "X: " ++ esc ("ExecStart=" ++ execStartValue program (argv items)) ++ " E: " ++
+    (if envs.isEmpty then "-" else ",".intercalate envs)
+
+/-- the daemon's restart of the started service: `R: ..` (and `RU: ..`, the replacement's own next upgrade) -/
+def showRestart (raw : List (String × String)) (data : Valuation) (regenv : Option AStr) : String :=
+  match raw.lookup "@drestart" with
+  | some "s:retain" =>
+    " || R: " ++ showArgs (buildRestartRetain data) ++ " | " ++ showSettings (restartRetainSettings data) ++
+      " levels=" ++ showLevel (restartRetainLevels data).1 ++ "/" ++ showLevel (restartRetainLevels data).2
+  | some _ =>
+    match data ["user"] with
+    | .opt none => " || R: err:no-user"
+    | _ =>
+      let dataU : Valuation := fun p => if p = ["#env"] then .opt regenv else data p
+      " || R: " ++ showArgs (buildRestartReplace data) ++ " | " ++ showSettings (restartReplaceSettings data) ++
+        " levels=-/" ++ showLevel (evalSrc data Gen.Upgrade.restartReplaceInstallLevel) ++
+      " || RU: " ++ showArgs (buildUpgrade (replaceRecordOf dataU)) ++ " | " ++ showSettings (upgradeSettings (replaceRecordOf dataU)) ++
+        " levels=" ++ showLevel (upgradeLevels (replaceRecordOf dataU)).1 ++ "/" ++ showLevel (upgradeLevels (replaceRecordOf dataU)).2
+  | none => ""
 
 def step (_ : Unit) (ws : List String) : Unit × String :=
   match ws with
@@ -151,7 +212,11 @@ def step (_ : Unit) (ws : List String) : Unit × String :=
       let outs := (installedServices raw).map fun i =>
         let (σ, data) := setup raw i
         s!"S{i} I: " ++ showArgs (buildInstall σ) ++ " | " ++ showSettings (installSettings σ) ++
-           " || U: " ++ showArgs (buildUpgrade data) ++ " | " ++ showSettings (upgradeSettings data)
+           " level=" ++ showLevel (installLevel σ) ++
+           " || U: " ++ showArgs (buildUpgrade data) ++ " | " ++ showSettings (upgradeSettings data) ++
+           " levels=" ++ showLevel (upgradeLevels data).1 ++ "/" ++ showLevel (upgradeLevels data).2 ++
+           showRestart raw data (regEnvOf (caseTable raw) raw i) ++
+           " || " ++ showUnit (installSettings σ) (buildInstall σ)
       ((), if outs.isEmpty then "none" else " ;; ".intercalate outs)
   | "accept" :: rest =>
     match rest.mapM splitKV with
